@@ -196,6 +196,11 @@ def serTree (t : Tree) (d : Ini) : Except Err Ini := do
   let d ← addSection d sTree
   sets d sTree [(kArch, t.arch), (kPlatforms, platformsStr t), (kBuildTs, t.ts.str)]
 
+/-- `if self.parent: parser.set(section, "parent", self.parent.uid)` -/
+def parentOpt : Option Str → List (Str × Str)
+  | some p => [(kParent, p)]
+  | none => []
+
 mutual
 /-- `Variant.serialize` (`pu`: UID of the parent, `none` at top level) -/
 def serVariant (pu : Option Str) (d : Ini) : Variant → Except Err Ini
@@ -212,7 +217,7 @@ def serVariant (pu : Option Str) (d : Ini) : Variant → Except Err Ini
     match validateClass "treeinfo.VariantPaths" [] with
     | .error e => .error e
     | .ok () =>
-    match sets d2 (secName type uid) (pathOpts paths ++ match pu with | some p => [(kParent, p)] | none => []) with
+    match sets d2 (secName type uid) (pathOpts paths ++ parentOpt pu) with
     | .error e => .error e
     | .ok d3 =>
     match serVariants (some uid) d3 kids with
